@@ -66,7 +66,7 @@ ONELINE = ('oneline_for', 'oneline_raise', 'oneline_ied', 'oneline_silent')
 
 
 def required_cells(tier):
-    return (['kind:' + k for k in KINDS if k != 'pv'] + ['terminated-continuation', 'terminated-one-liner', 'terminated-one-liner:raises', 'stack-lines', 'prose-separation',
+    return (['kind:' + k for k in KINDS if k != 'pv'] + ['terminated-continuation', 'tab-indented-example', 'terminated-one-liner', 'terminated-one-liner:raises', 'stack-lines', 'prose-separation',
             'indent:0', 'indent:4', 'indent:2', 'indent:8', 'both-pass', 'reindent-after-want:less',
             'reindent-after-want:more', 'corpus:both-pass'])
 
@@ -276,6 +276,11 @@ def make(seed):
             examples.append({'kind': k, 'src': src, 'print_and_value': bool(before) and value is not None,
                              'first_line': ex_lines[0]})
             pad = ' ' * cur
+            if cur == 8 and rng.random() < 0.35:
+                # this example is indented with one TAB where its neighbours have eight blanks: the same columns, the
+                # standard module expands tabs before anything else
+                pad = '\t'
+                feats.add('tab-indented-example')
             lines += [pad + ln for ln in ex_lines + want]
         feats.add('kind:' + k)
         feats.add('indent:%d' % cur)
